@@ -101,31 +101,29 @@ class ExternalOptimizer(Optimizer):
                 answer: str | list[Any] | dict[str, Any] | None = None
                 exception: BaseException | None = None
 
-                while process.poll() is None:
-                    if answer is None:
-                        try:
-                            answer = self._handle_request(comm, initial_values)
-                        except Exception as exc:  # noqa: BLE001
-                            # Store the exception, we first need to send the 'abort' signal:
-                            exception = exc
-                            answer = "abort"
+                try:
+                    while process.poll() is None:
+                        if answer is None:
+                            try:
+                                answer = self._handle_request(comm, initial_values)
+                            except Exception as exc:  # noqa: BLE001
+                                # Store the exception, we first need to send the 'abort' signal:
+                                exception = exc
+                                answer = "abort"
 
-                    if answer is not None and comm.write(answer):
-                        answer = None
-                        # If the message has been sent, then reraise any exceptions:
-                        if exception is not None:
-                            # The process should have aborted:
-                            with contextlib.suppress(ProcessLookupError):
-                                os.kill(self._process_pid, signal.SIGTERM)
-                            with contextlib.suppress(subprocess.TimeoutExpired):
-                                process.wait(_PROCESS_TIMEOUT)
-                            raise exception
-                    time.sleep(0.1)
-
-                with contextlib.suppress(ProcessLookupError):
-                    os.kill(self._process_pid, signal.SIGTERM)
-                with contextlib.suppress(subprocess.TimeoutExpired):
-                    process.wait(_PROCESS_TIMEOUT)
+                        if answer is not None and comm.write(answer):
+                            answer = None
+                            # If the message has been sent, then reraise any exceptions:
+                            if exception is not None:
+                                raise exception
+                        time.sleep(0.1)
+                finally:
+                    # The process is never left running, also not if a message
+                    # could not be sent:
+                    with contextlib.suppress(ProcessLookupError):
+                        os.kill(self._process_pid, signal.SIGTERM)
+                    with contextlib.suppress(subprocess.TimeoutExpired):
+                        process.wait(_PROCESS_TIMEOUT)
 
                 # The process has ended by itself. Any exception that could not
                 # be reported to it must still be raised, and an abnormal exit
@@ -359,6 +357,10 @@ class _JSONPipeCommunicator:
             def default(self, obj: Any) -> Any:  # noqa: ANN401
                 if isinstance(obj, np.ndarray):
                     return obj.tolist()
+                if isinstance(obj, np.generic):
+                    return obj.item()
+                if isinstance(obj, os.PathLike):
+                    return os.fspath(obj)
                 return super().default(obj)
 
         if self._write_fd is None:
